@@ -169,10 +169,30 @@ def run(chk):
     import collections as _col
     sites = _col.Counter()
     where = {}
-    for n, ws in writers.items():
-        for fn, kind, loc in ws:
-            sites[(n, fn)] += 1
-            where.setdefault((n, fn), []).append(loc)
+    # a site is a store to the object, or a call that receives its address through a pointer-to-non-const parameter (taking the address
+    # for reading - a const table of feature-bit locations, a const accessor - is not a write)
+    seen_here = set()
+    for tu in P.tus():
+        protos = {d['name']: d.get('params') or [] for d in P.facts[tu]['decls']}
+        for f in P.funcs(tu):
+            for bid, i, ev in f.events(('assign', 'call')):
+                hits = []
+                if ev['k'] == 'assign':
+                    br = cf.base_ref(ev['lhs'])
+                    if br is not None and br.get('g') and br['n'] in allow:
+                        hits.append(br['n'])
+                else:
+                    pr = protos.get(ev['e'].get('fn') or '')
+                    for ai, a in enumerate(ev['e'].get('a', [])):
+                        if pr is not None and ai < len(pr) and re.match(r'^const\b[^*]*\*', pr[ai].get('type') or ''):
+                            continue
+                        hits.extend(n for _, n in _escapes(a, mutable) if n in allow)
+                for n in hits:
+                    if (n, f.name, ev['loc']) in seen_here:
+                        continue
+                    seen_here.add((n, f.name, ev['loc']))
+                    sites[(n, f.name)] += 1
+                    where.setdefault((n, f.name), []).append(ev['loc'])
     for (n, fn), k in sorted(sites.items()):
         if n not in allow:
             continue
